@@ -122,9 +122,11 @@ def model_stage(scns, thorough, on_run, work):
         except model.Unsupported as ex:
             return s, None, str(ex)
         design = model.check(s, wd, dev=(), name=s["id"] + "_design") if thorough else None
+        # C02 in the model: under weak fairness every execution ends and stays ended, on every schedule
+        live = model.check(s, wd, name=s["id"] + "_live", liveness=True) if thorough else None
         dot = os.path.join(wd, "g_" + "".join(c if c.isalnum() else "_" for c in s["id"]))
         graph = model.check(s, wd, dump=dot, name=s["id"] + "_code")
-        return s, (code, design, graph, dot + ".dot"), None
+        return s, (code, design, graph, dot + ".dot", live), None
     out = {"scenarios": {}, "states": 0, "transitions": 0, "paths": 0, "drift": 0, "unsupported": {}, "leads": []}
     with ThreadPoolExecutor(max_workers=8) as ex:
         results = list(ex.map(one, sel))
@@ -132,14 +134,17 @@ def model_stage(scns, thorough, on_run, work):
         if r is None:
             out["unsupported"][s["id"]] = why
             continue
-        code, design, graph, dot = r
-        for x in (code, design, graph):
+        code, design, graph, dot, live = r
+        for x in (code, design, graph, live):
             if x is not None and not x["ok"] and not x["violated"] and "Error" in x["out"]:
                 raise tlc.TLCError("Engine.tla failed on %s:\n%s" % (s["id"], x["out"][-2500:]))
         out["states"] += code["states"] + (design["states"] if design else 0)
         out["transitions"] += code["generated"] + (design["generated"] if design else 0)
         info = {"states": graph["states"], "code": "holds" if code["ok"] else code["violated"],
-                "design": "not run at quick" if design is None else ("holds" if design["ok"] else design["violated"])}
+                "design": "not run at quick" if design is None else ("holds" if design["ok"] else design["violated"]),
+                "liveness_EventuallyDone": "not run at quick" if live is None else ("holds" if live["ok"] else live["violated"])}
+        if live is not None and not live["ok"] and live["violated"]:
+            out["leads"].append({"scenario": s["id"], "invariant": live["violated"] + " (temporal)", "followed": None})
         if not code["ok"] and code["violated"]:
             try:
                 cx = rp.replay_counterexample(s, code["out"])
